@@ -7,6 +7,7 @@ import (
 	"io"
 	"net/http"
 
+	"github.com/imroc/req/v3/internal/ascii"
 	"github.com/imroc/req/v3/internal/compress"
 	"github.com/imroc/req/v3/internal/dump"
 	"github.com/imroc/req/v3/internal/transport"
@@ -156,6 +157,7 @@ type requestStream struct {
 	sentRequest   bool
 	requestedGzip bool
 	isConnect     bool
+	isHead        bool
 }
 
 var _ RequestStream = &requestStream{}
@@ -208,6 +210,7 @@ func (s *requestStream) SendRequestHeader(req *http.Request) error {
 	}
 
 	s.isConnect = req.Method == http.MethodConnect
+	s.isHead = req.Method == http.MethodHead
 	s.sentRequest = true
 	return s.requestWriter.WriteRequestHeader(s.Stream, req, s.requestedGzip, headerDumps)
 }
@@ -271,13 +274,13 @@ func (s *requestStream) ReadResponse() (*http.Response, error) {
 		res.ContentLength = 0
 	}
 	s.responseBody = respBody
-	if s.requestedGzip && res.Header.Get("Content-Encoding") == "gzip" {
+	if s.requestedGzip && ascii.EqualFold(res.Header.Get("Content-Encoding"), "gzip") {
 		res.Header.Del("Content-Encoding")
 		res.Header.Del("Content-Length")
 		res.ContentLength = -1
 		s.responseBody = compress.NewGzipReader(respBody)
 		res.Uncompressed = true
-	} else if s.AutoDecompression {
+	} else if s.AutoDecompression && !s.isHead {
 		// Leave the response alone unless the encoding is one we can decode.
 		if cr := compress.NewCompressReader(respBody, res.Header.Get("Content-Encoding")); cr != nil {
 			res.Header.Del("Content-Encoding")
